@@ -57,7 +57,8 @@ def call_all(bp, wl, thr, area):
     for m in ('unit_response', 'emflx'):
         R[m] = guarded(lambda: getattr(bp, m)(area, **kw))
     for m in ('rmswidth', 'photbw', 'fwhm'):
-        R[m + '_thr'] = guarded(lambda: getattr(bp, m)(threshold=thr, **kw))
+        # threshold=None is the default argument: the call above already made it
+        R[m + '_thr'] = R[m] if thr is None else guarded(lambda: getattr(bp, m)(threshold=thr, **kw))
     return R
 
 
@@ -541,14 +542,14 @@ def underflow_risk(c):
 
 def gen_case(rng, K, nmax_t, nmax_g, sparse=False):
     """sparse (thorough tier): each of the three companion evaluations (bp*k, reversed grid, other unit) is made
-    for a third of the cases only, which keeps 1e5 cases x 17 method calls inside the time budget"""
+    for a quarter of the cases only, which keeps 1e5 cases x 17 method calls inside the time budget"""
     while True:
         c = gen_case1(rng, K, nmax_t, nmax_g)
         if not underflow_risk(c):
             break
     if sparse:
         for f in ('do_scaled', 'do_rev', 'do_unit'):
-            c[f] = rng.random() < 1 / 3
+            c[f] = rng.random() < 1 / 4
     return c
 
 
@@ -701,7 +702,7 @@ def run(rep):
                 'All 14 methods per case (17 calls: the three width methods with and without threshold)%s. '
                 'Non-trivial: the average wavelength is defined and non-zero.' % (
                     nmax_t, nmax_g, '; thorough tier: 10 %% of the cases use the long tables/grids, and each companion evaluation '
-                    '(bp*k, reversed grid, other unit) is made for a third of the cases' if rep.tier == 'thorough' else ''))
+                    '(bp*k, reversed grid, other unit) is made for a quarter of the cases' if rep.tier == 'thorough' else ''))
     # in chunks, to bound memory in the thorough tier
     step = 20000
     for i in range(0, len(cases), step):
